@@ -99,7 +99,7 @@ TEXT["C03"] = dict(
     category="exploration",
     technique="seeded simulation (chain world): every suspension point of generated await/yield-from chains; oracle = traceback of an injected BaseException thrown into the same state (replayed per suspension)",
     text="Generated chains of depth 0-6 over every link kind (await coroutine / generator-based coroutine / __await__ returning coroutine-wrapper, generator function or generator; yield from; "
-    "async for, __anext__, asend, in-flight athrow and aclose on native async generators), levels optionally inside with blocks, except handlers or finally bodies, ending in a trap or a plain-iterator leaf. "
+    "async for, __anext__, asend, in-flight athrow and aclose on native async generators, the two-argument anext() builtin on async generators and on custom async iterators (3.10+)), levels optionally inside with blocks, except handlers or finally bodies, ending in a trap or a plain-iterator leaf. "
     "For every suspension point the chain is rebuilt from the same tape, extract(x) is taken, then a Probe(BaseException) is thrown in: Stack.frames must be the traceback's frame objects with equal line numbers; "
     "root, leaf, exhausted targets and with_contexts=False are checked too.",
     note="Trusted: CPython's traceback of the thrown exception; on <=3.11 that traceback is sparse below a frame that is handling another exception, there only an ordered sub-sequence is demanded (counted in evidence).",
@@ -110,7 +110,7 @@ TEXT["C05"] = dict(
     category="fault_enumeration",
     technique="seeded scenarios + complete single-fault enumeration over the dynamic hook-invocation sequence of each scenario, plus sampled fault pairs",
     text="Per run one scenario (suspended generated program with generator-based managers and exit stacks / parked thread / suspended, unstarted or dead greenlet / synthetic items with tuple, list, "
-    "iterator and yields_frames unwrappers / arbitrary objects incl. hostile __repr__/__eq__). The fault-free extraction records every dynamic invocation of the eight hook seams; an Exception is then injected at every "
+    "iterator and yields_frames unwrappers / arbitrary objects incl. hostile __repr__/__eq__/__class__/__getattr__/__len__/__bool__/__iter__, hooks returning Sequences whose protocol methods raise). The fault-free extraction records every dynamic invocation of the eight hook seams; an Exception (sometimes one that is itself an ExceptionGroup; for frame sources sometimes a failure that persists on every later step) is then injected at every "
     "position in turn and at sampled pairs. extract must return a Stack; each injected exception object must be found in the error of the Stack that was being built (nearest extract_child frame at injection), alone or inside an "
     "ExceptionGroup; frames outward of the failing frame must equal the fault-free ones; the frame whose elaborate_frame failed stays and is un-hidden; str/format/format_flat/as_stdlib_summary must work.",
     note="Trusted: wrappers installed on the module attributes through which extract_iter / the glue reach the hooks; single faults are complete per scenario (scenarios with > 80 invocations: first 40 + 40 sampled), scenarios themselves are sampled.",
@@ -172,7 +172,7 @@ TEXT["C15"] = dict(
     technique="seeded simulation: director-driven greenlet trees (lifecycle history on the tape), shadow call logs as oracle; foreign-thread greenlet parked on a lock; greenback alternation under seeded Trio",
     text="A tape-chosen history of spawn / start / switch / finish / throw over up to 5 greenlets with parent chains up to depth 4 and call depth 0-3 (incl. running generators mid-stack); at tape-chosen moments the current greenlet extracts any greenlet: "
     "suspended -> exactly its shadow call log whoever asks (outsider, ancestor, sibling, descendant), current -> exactly the f_back chain of the caller, unstarted/dead -> nothing, running in another thread -> error and no frames. "
-    "Greenback legs: sync/async alternation depth 0-3 under seeded Trio inspected from outside and inside (bridging frames hidden).",
+    "Greenback legs: portal from ensure_portal / with_portal_run / with_portal_run_tree / with_portal_run_sync, each level crossing into async code through await_ / autoawait / async_context / async_iter, alternation depth 0-3 under seeded Trio, inspected from outside and inside (bridging frames hidden, every user frame once, in order).",
     note="Trusted: greenlets switch only from their loop frame; CPython 3.12 only (greenlet/greenback are not available for the other interpreters).",
     design_ref="5 (C15)",
 )
@@ -189,7 +189,7 @@ TEXT["C14"] = dict(
     category="exploration",
     technique="seeded simulation: generated Trio programs under a real trio.run whose batch order is seeded from the tape; worker threads parked on locks; parallel walk of Trio's own task tree and the extracted tree",
     text="Generated task trees (depth <= 3, fan-out <= 3, 0-2 nested nurseries per task, bodies ending in plain statements / try-except / try-finally / conditional return / cancelled scope so tasks block in the body or in __aexit__; "
-    "to_thread.run_sync <-> from_thread.run ping-pong of depth 0-3) run under real Trio with seeded scheduling; at quiescence a controller task extracts the root task recursively and compares with task.child_nurseries / nursery.child_tasks "
+    "to_thread.run_sync <-> from_thread.run ping-pong of depth 0-3 with abandon_on_cancel and an explicit shared thread_name drawn per call, a C callable as sync_fn, threads that Trio did not start entering with from_thread.run(trio_token=...), nursery.start() with children that have / have not reported in, nurseries entered through AsyncExitStack or inside @asynccontextmanager) run under real Trio with seeded scheduling; at quiescence a controller task extracts the root task recursively and compares with task.child_nurseries / nursery.child_tasks "
     "(once each, nesting order, identities, exiting flag, thread frames in place of the wait and back into the task), with no error and no InspectionWarning; without recursion children must be stubs.",
     note="Trusted: trio's _r / _ALLOW_DETERMINISTIC_SCHEDULING seam; the world's record of where each task blocks; 3.12 only.",
     design_ref="5 (C14)",
